@@ -1214,10 +1214,9 @@ class _Simu(_IObserver, _params.Updatable, ABC):
         ...     simu.Solve()
         ...     simu.Save_Iter()
         """
-        self.__algo = AlgoType.parabolic
-
         assert dt > 0, "Time increment must be > 0"
 
+        self.__algo = AlgoType.parabolic
         self.__parabolicParams = (dt, alpha)
 
     def __Solver_Get_Parabolic_Params(self) -> tuple[float, float]:
@@ -1276,7 +1275,6 @@ class _Simu(_IObserver, _params.Updatable, ABC):
         assert not (
             algo == AlgoType.euler_explicit and self.isNonLinear
         ), "euler_explicit is only supported for linear simulations."
-        self.__algo = algo
 
         assert dt > 0, "Time increment must be > 0"
 
@@ -1294,6 +1292,8 @@ class _Simu(_IObserver, _params.Updatable, ABC):
         else:
             assert 0 <= alpha < 1
 
+        # a refused call leaves the current algorithm and its parameters untouched
+        self.__algo = algo
         self.__hyperbolicParams = (dt, beta, gamma, alpha)
 
     def __Solver_Get_Hyperbolic_Params(self) -> tuple[float, float, float, float]:
